@@ -21,6 +21,8 @@ KOf(s, R, off) == [kind |-> "ktensor", w |-> [r \in 1..R |-> V(r + off)],
                    U |-> [k \in 1..Len(s) |-> [i \in 1..s[k] |-> [r \in 1..R |-> V(off + 7 * k + 3 * i + r)]]]]
 MOf(r, c, off) == [kind |-> "matrix", m |-> [i \in 1..r |-> [j \in 1..c |-> V(off + (i - 1) * c + j)]]]
 
+AOf(s, off) == [kind |-> "array", shape |-> s, v |-> [k \in 1..Prod(s) |-> V(off + k)]]
+
 Patterns(n) == {{}, {1}, {n}, 1..n, {k \in 1..n : k % 2 = 1}} \cup (IF n >= 3 THEN {{2, n}, {n, 1, 2}} ELSE {})
 Objs ==
   UNION {{DenseOf(s, off) : off \in {0, 11}} : s \in ShapesF}
@@ -34,6 +36,8 @@ Objs ==
         \* more stored entries than any block size a writer is likely to use
         [kind |-> "sparse", shape |-> <<4500>>, subs |-> [k \in 1..4500 |-> <<k - 1>>], vals |-> [k \in 1..4500 |-> V(k + 3)]]}
   \cup {MOf(r, c, off) : r \in 1..3, c \in 1..3, off \in {0, 4}}
+  \* plain arrays that are not 2-way (written under the matrix keyword with their own shape)
+  \cup {AOf(s, off) : s \in {<<1>>, <<3>>, <<12>>, <<2, 1, 2>>, <<2, 3, 2>>, <<1, 1, 1>>, <<2, 2, 1, 2>>}, off \in {0, 6}}
 
 Stimuli == {[obj |-> o, base |-> b] : o \in Objs, b \in 0..1}
 
